@@ -73,3 +73,38 @@ theorem scaled_disjoint (p q xsz : Nat) (h : p ≠ q) : p * xsz + xsz ≤ q * xs
     rwa [Nat.add_mul, Nat.one_mul] at this
 
 end PnVerif.Access
+
+namespace PnVerif.Access
+
+/-- the index form used by ncmpio_first_offset for the dimensions after the first:
+    Σ_{j ≤ m-2} idx[j] * Π shape[j+1..]  +  idx[m-1]   =   rowMajor shape idx      (m = length ≥ 1) -/
+theorem sumRange_rowMajor (shape idx : List Nat) (h : shape.length = idx.length) (hpos : 0 < shape.length) :
+    sumRange (shape.length - 1) (fun j => idx.getD j 0 * prod (shape.drop (j + 1))) + idx.getD (shape.length - 1) 0
+      = rowMajor shape idx := by
+  induction shape generalizing idx with
+  | nil => simp at hpos
+  | cons a as ih =>
+    cases idx with
+    | nil => simp at h
+    | cons s ss =>
+      simp only [List.length_cons, Nat.add_right_cancel_iff] at h
+      cases as with
+      | nil =>
+        have : ss = [] := List.length_eq_zero_iff.mp h.symm
+        subst this
+        simp [sumRange, rowMajor, prod]
+      | cons b bs =>
+        have ih' := ih ss h (by simp)
+        simp only [List.length_cons, Nat.add_sub_cancel] at ih' ⊢
+        simp only [sumRange, rowMajor]
+        rw [← ih']
+        have e1 : (s :: ss).getD 0 0 = s := rfl
+        have e2 : List.drop (0 + 1) (a :: b :: bs) = b :: bs := rfl
+        have e3 : (s :: ss).getD (bs.length + 1) 0 = ss.getD bs.length 0 := rfl
+        have e4 : (fun j => (s :: ss).getD (j + 1) 0 * prod (List.drop (j + 1 + 1) (a :: b :: bs)))
+                = (fun j => ss.getD j 0 * prod (List.drop (j + 1) (b :: bs))) := by
+          funext j; rfl
+        rw [e1, e2, e3, e4]
+        omega
+
+end PnVerif.Access
